@@ -18,6 +18,13 @@
 //!   expression keys, expression arguments, HAVING over an unselected aggregate, MIN/MAX(text),
 //!   COUNT(col); counted as pruned per finding).
 //!
+//! Same-type-keys family ("ad", runs first): `t(a INT, d INT, c TEXT)` [+ pk variant], every
+//! multiset of <= 3 (quick) / <= 4 (thorough) rows over (a,d) in {NULL,1,2}^2 (c a function of
+//! (a,d) that is equal for (NULL,v) and (v,NULL)) plus one fixed 10-row table; GROUP BY a,d and
+//! d,a (on the fixed table also a,d,c and c,d,a) x COUNT(*), COUNT(a|d), SUM/MIN/MAX(a|d), one
+//! multi list x HAVING {none, COUNT(*) > 1}.  Two grouping columns of the same type with
+//! overlapping domains: a group key that does not separate (NULL,v) from (v,NULL) merges groups.
+//!
 //! Oracle: `Query::eval` compared with the observed rows as bags by `bags_loosely_equal`.
 //! Tolerances (all of them): `Int(n)` ~ `Float(n.0)` (result type of SUM/AVG/MIN/MAX is not
 //! pinned), floats equal within 1e-9 relative (summation order), row order is free.
@@ -27,7 +34,7 @@
 //! EXPLAIN (Project>HashAggregate>TableScan), counts it, and on every pk table also checks
 //! COUNT(*) (fast path) and COUNT(*) WHERE <true> (scan) after each of n single-row DELETEs.
 //!
-//! Signature: C16/<agg>(<arg kind>)/<none|1key|2keys|expr-key>/<empty|all-null|some-null|no-null
+//! Signature: C16/<agg>(<arg kind>)/<none|1key|2keys|expr-key|2keys-same-type|3keys>/<empty|all-null|some-null|no-null
 //! [+deleted]>/<nohaving|having|having-unselected>/<expected class>><observed class>
 //!   the blamed aggregate = first select-list aggregate whose cell differs (first of the list for
 //!   group-level failures); having-unselected = HAVING over an aggregate that is not selected;
@@ -76,6 +83,8 @@ struct TableSpec {
     pk: bool,
     rows: Vec<TRow>,
     fixed: bool,
+    /// family "ad": `t(a INT, d INT, c TEXT)` with rows (a, d) and c = c_of(a, d); `rows` is unused
+    ad: Option<Vec<(Option<i64>, Option<i64>)>>,
 }
 impl TableSpec {
     fn variant(&self) -> &'static str {
@@ -86,15 +95,48 @@ impl TableSpec {
         }
     }
     fn rows_json(&self) -> Value {
-        json!(self.rows.iter().map(|(a, c)| json!([a, c])).collect::<Vec<_>>())
+        match &self.ad {
+            Some(ad) => json!(ad.iter().map(|(a, d)| json!([a, d])).collect::<Vec<_>>()),
+            None => json!(self.rows.iter().map(|(a, c)| json!([a, c])).collect::<Vec<_>>()),
+        }
+    }
+    fn family(&self) -> &'static str {
+        if self.ad.is_some() {
+            "ad"
+        } else {
+            "abc"
+        }
+    }
+    fn nrows(&self) -> usize {
+        self.ad.as_ref().map_or(self.rows.len(), |r| r.len())
     }
     fn from_json(case: &Value) -> TableSpec {
         let pk = case["variant"].as_str() == Some("pk");
+        if case["family"].as_str() == Some("ad") {
+            let ad = case["rows"].as_array().map(|a| a.iter().map(|r| (r[0].as_i64(), r[1].as_i64())).collect()).unwrap_or_default();
+            return TableSpec { pk, rows: vec![], fixed: false, ad: Some(ad) };
+        }
         let rows = case["rows"].as_array().map(|a| a.iter().map(|r| (r[0].as_i64(), r[1].as_str().map(|s| s.to_string()))).collect()).unwrap_or_default();
-        TableSpec { pk, rows, fixed: false }
+        TableSpec { pk, rows, fixed: false, ad: None }
     }
-    /// (id,) a, b, c
+    /// (id,) a, b, c   —   family "ad": (id,) a, d, c
     fn model_rows(&self) -> Vec<Row> {
+        if let Some(ad) = &self.ad {
+            return ad
+                .iter()
+                .enumerate()
+                .map(|(i, (a, d))| {
+                    let mut r = vec![];
+                    if self.pk {
+                        r.push(V::Int(i as i64 + 1));
+                    }
+                    r.push(a.map(V::Int).unwrap_or(V::Null));
+                    r.push(d.map(V::Int).unwrap_or(V::Null));
+                    r.push(c_of(*a, *d).map(|s| V::Text(s.into())).unwrap_or(V::Null));
+                    r
+                })
+                .collect();
+        }
         self.rows
             .iter()
             .enumerate()
@@ -115,9 +157,56 @@ impl TableSpec {
         if self.pk {
             c.push(("id", Ty::Int));
         }
-        c.extend([("a", Ty::Int), ("b", Ty::Real), ("c", Ty::Text)]);
+        if self.ad.is_some() {
+            c.extend([("a", Ty::Int), ("d", Ty::Int), ("c", Ty::Text)]);
+        } else {
+            c.extend([("a", Ty::Int), ("b", Ty::Real), ("c", Ty::Text)]);
+        }
         c
     }
+}
+
+/// family "ad": the TEXT column as a function of (a, d); (NULL,v) and (v,NULL) get the SAME c, so
+/// that the 3-key grouping (a, d, c) still separates them only by the positions of the NULLs
+fn c_of(a: Option<i64>, d: Option<i64>) -> Option<&'static str> {
+    match (a, d) {
+        (None, Some(1)) | (Some(1), None) | (Some(1), Some(2)) => Some("a"),
+        (None, Some(2)) | (Some(2), None) | (Some(2), Some(1)) => Some("b"),
+        _ => None,
+    }
+}
+
+/// family "ad": all multisets of <= kmax pairs over {NULL,1,2}^2 (scrambled domain order) and one
+/// fixed table; the two grouping columns have the SAME type and overlapping domains, so a group
+/// key that does not separate (NULL, v) from (v, NULL) merges groups
+fn ad_tables(kmax: usize) -> Vec<TableSpec> {
+    let d: Vec<(Option<i64>, Option<i64>)> = vec![(None, Some(1)), (Some(1), None), (Some(1), Some(1)), (None, None), (Some(2), None), (None, Some(2)), (Some(1), Some(2)), (Some(2), Some(1)), (Some(2), Some(2))];
+    let mut out = vec![];
+    for k in 0..=kmax {
+        let mut idx = vec![0usize; k];
+        loop {
+            let rows: Vec<_> = idx.iter().map(|&i| d[i]).collect();
+            for pk in [false, true] {
+                out.push(TableSpec { pk, rows: vec![], fixed: false, ad: Some(rows.clone()) });
+            }
+            let mut p = k;
+            while p > 0 && idx[p - 1] == d.len() - 1 {
+                p -= 1;
+            }
+            if p == 0 {
+                break;
+            }
+            let v = idx[p - 1] + 1;
+            for q in p - 1..k {
+                idx[q] = v;
+            }
+        }
+    }
+    let fixed = vec![(None, Some(1)), (Some(1), None), (Some(1), Some(1)), (None, None), (Some(2), None), (None, Some(2)), (Some(1), None), (None, Some(1)), (None, None), (Some(2), Some(1))];
+    for pk in [false, true] {
+        out.push(TableSpec { pk, rows: vec![], fixed: true, ad: Some(fixed.clone()) });
+    }
+    out
 }
 
 fn multisets(kmax: usize) -> Vec<Vec<TRow>> {
@@ -160,17 +249,17 @@ fn all_tables(kmax: usize, kfull: usize) -> Vec<TableSpec> {
     let ms = multisets(kmax);
     for rows in ms.iter().filter(|r| r.len() <= kfull) {
         for pk in [false, true] {
-            out.push(TableSpec { pk, rows: rows.clone(), fixed: false });
+            out.push(TableSpec { pk, rows: rows.clone(), fixed: false, ad: None });
         }
     }
     for rows in fixed_tables() {
         for pk in [false, true] {
-            out.push(TableSpec { pk, rows: rows.clone(), fixed: true });
+            out.push(TableSpec { pk, rows: rows.clone(), fixed: true, ad: None });
         }
     }
     for rows in ms.iter().filter(|r| r.len() > kfull) {
         for pk in [false, true] {
-            out.push(TableSpec { pk, rows: rows.clone(), fixed: false });
+            out.push(TableSpec { pk, rows: rows.clone(), fixed: false, ad: None });
         }
     }
     out
@@ -184,10 +273,11 @@ fn setup(base: &std::path::Path, name: &str, spec: &TableSpec) -> Result<(TestDb
     let t = TestDb::create(base, name)?;
     let trows = spec.model_rows();
     let mut stmts = vec![];
+    let second = if spec.ad.is_some() { "d INT" } else { "b REAL" };
     if spec.pk {
-        stmts.push("CREATE TABLE t (id INT PRIMARY KEY, a INT, b REAL, c TEXT)".to_string());
+        stmts.push(format!("CREATE TABLE t (id INT PRIMARY KEY, a INT, {second}, c TEXT)"));
     } else {
-        stmts.push("CREATE TABLE t (a INT, b REAL, c TEXT)".to_string());
+        stmts.push(format!("CREATE TABLE t (a INT, {second}, c TEXT)"));
     }
     if !trows.is_empty() {
         stmts.push(format!("INSERT INTO t VALUES {}", values_sql(&trows)));
@@ -286,6 +376,42 @@ fn groupings() -> Vec<Grouping> {
     ]
 }
 
+/// family "ad": select lists and groupings (2 and 3 keys of which two have the same type)
+fn agg_lists_ad() -> Vec<(String, Vec<Agg>)> {
+    let mk = |name: &str, f: AggFunc, col: Option<&str>| Agg { name: name.into(), func: f, arg: col.map(ex::col), kind: if col.is_none() { "star" } else { "int" } };
+    let single = vec![
+        mk("COUNT(*)", AggFunc::Count, None),
+        mk("COUNT(a)", AggFunc::Count, Some("a")),
+        mk("COUNT(d)", AggFunc::Count, Some("d")),
+        mk("SUM(a)", AggFunc::Sum, Some("a")),
+        mk("SUM(d)", AggFunc::Sum, Some("d")),
+        mk("MIN(a)", AggFunc::Min, Some("a")),
+        mk("MIN(d)", AggFunc::Min, Some("d")),
+        mk("MAX(a)", AggFunc::Max, Some("a")),
+        mk("MAX(d)", AggFunc::Max, Some("d")),
+    ];
+    let mut out: Vec<(String, Vec<Agg>)> = single.iter().map(|a| (format!("ad:{}", a.name), vec![a.clone()])).collect();
+    out.push(("ad:multi".into(), vec![single[0].clone(), single[4].clone(), single[5].clone(), single[8].clone()]));
+    out
+}
+fn groupings_ad(three_keys: bool) -> Vec<Grouping> {
+    let mut g = vec![
+        Grouping { name: "a,d", sig: "2keys-same-type", keys: vec![ex::col("a"), ex::col("d")] },
+        Grouping { name: "d,a", sig: "2keys-same-type", keys: vec![ex::col("d"), ex::col("a")] },
+    ];
+    if three_keys {
+        g.push(Grouping { name: "a,d,c", sig: "3keys", keys: vec![ex::col("a"), ex::col("d"), ex::col("c")] });
+        g.push(Grouping { name: "c,d,a", sig: "3keys", keys: vec![ex::col("c"), ex::col("d"), ex::col("a")] });
+    }
+    g
+}
+fn wheres_ad() -> Vec<(&'static str, Option<Expr>)> {
+    vec![("none", None)]
+}
+fn havings_ad(_first: &Agg) -> Vec<(&'static str, Option<Expr>)> {
+    vec![("none", None), ("count>1", Some(ex::gt(ex::count_star(), ex::int(1))))]
+}
+
 fn wheres() -> Vec<(&'static str, Option<Expr>)> {
     vec![("none", None), ("a>1", Some(ex::gt(ex::col("a"), ex::int(1)))), ("c='a'", Some(ex::eq(ex::col("c"), ex::text("a")))), ("a<0", Some(ex::lt(ex::col("a"), ex::int(0))))]
 }
@@ -330,11 +456,11 @@ impl QDesc {
         }
     }
     fn json(&self, spec: &TableSpec, sql: &str) -> Value {
-        json!({"variant": spec.variant(), "rows": spec.rows_json(), "aggs": self.list, "group": self.grouping.name, "where": self.where_name, "having": self.having_name, "sql": sql})
+        json!({"family": spec.family(), "variant": spec.variant(), "rows": spec.rows_json(), "aggs": self.list, "group": self.grouping.name, "where": self.where_name, "having": self.having_name, "sql": sql})
     }
     fn from_json(case: &Value) -> Option<QDesc> {
-        let (list, aggs) = agg_lists().into_iter().find(|(n, _)| Some(n.as_str()) == case["aggs"].as_str())?;
-        let grouping = groupings().into_iter().find(|g| Some(g.name) == case["group"].as_str())?;
+        let (list, aggs) = agg_lists().into_iter().chain(agg_lists_ad()).find(|(n, _)| Some(n.as_str()) == case["aggs"].as_str())?;
+        let grouping = groupings().into_iter().chain(groupings_ad(true)).find(|g| Some(g.name) == case["group"].as_str())?;
         let (where_name, where_) = wheres().into_iter().find(|(n, _)| Some(*n) == case["where"].as_str())?;
         let (having_name, having) = havings(&aggs[0]).into_iter().find(|(n, _)| Some(*n) == case["having"].as_str())?;
         Some(QDesc { list, aggs, grouping, where_name, where_, having_name, having })
@@ -597,7 +723,8 @@ fn known_broken(qd: &QDesc) -> Option<u8> {
 
 /// All queries of the selected aggregate lists on one table, on one fresh database.
 fn run_table(ctx: &Ctx, rep: &mut Reporter, spec: &TableSpec, ti: usize, lists: &[(String, Vec<Agg>)], explain: bool, deep: bool) {
-    let name = format!("t{ti}");
+    let ad = spec.ad.is_some();
+    let name = format!("{}{ti}", if ad { "ad" } else { "t" });
     let (mut t, mdb) = match setup(&ctx.scratch, &name, spec) {
         Ok(x) => x,
         Err(e) => {
@@ -609,10 +736,10 @@ fn run_table(ctx: &Ctx, rep: &mut Reporter, spec: &TableSpec, ti: usize, lists: 
     let mut dirty = false;
     let mut n = 0u64;
     for (list, aggs) in lists {
-        for grouping in groupings() {
-            for (where_name, where_) in wheres() {
-                for (having_name, having) in havings(&aggs[0]) {
-                    if aggs[0].arg.is_none() && aggs.len() == 1 && having_name == "count>1" {
+        for grouping in if ad { groupings_ad(spec.fixed) } else { groupings() } {
+            for (where_name, where_) in if ad { wheres_ad() } else { wheres() } {
+                for (having_name, having) in if ad { havings_ad(&aggs[0]) } else { havings(&aggs[0]) } {
+                    if !ad && aggs[0].arg.is_none() && aggs.len() == 1 && having_name == "count>1" {
                         continue; // same SQL as agg>k
                     }
                     let qd = QDesc { list: list.clone(), aggs: aggs.clone(), grouping: grouping.clone(), where_name, where_: where_.clone(), having_name, having };
@@ -677,9 +804,9 @@ fn run_table(ctx: &Ctx, rep: &mut Reporter, spec: &TableSpec, ti: usize, lists: 
             break;
         }
     }
-    rep.bulk(n, if spec.rows.is_empty() { 0 } else { n });
+    rep.bulk(n, if spec.nrows() == 0 { 0 } else { n });
     rep.count("queries", n);
-    rep.count(if deep { "queries_deep_pass" } else { "queries_full_pass" }, n);
+    rep.count(if ad { "queries_same_type_keys_family" } else if deep { "queries_deep_pass" } else { "queries_full_pass" }, n);
 }
 
 struct C16;
@@ -689,7 +816,7 @@ impl Check for C16 {
         let mut s = Spec::new(
             PROP,
             "exploration",
-            "a case is one aggregate query on one table.  Tables: every multiset of <=4 (quick) / <=6 (thorough) rows over (a,c) in {NULL,1,2}x{NULL,'a','b'} with the REAL column b a fixed function of (a,c) (values NULL/0.5/1.5/2.5), as t(a INT,b REAL,c TEXT) and with an INT PRIMARY KEY, incl. the empty and all-NULL tables, plus five fixed 8-row tables.  Queries: SELECT [g,] agg FROM t [WHERE p] [GROUP BY g[,h]] [HAVING agg cmp k]: 23 single aggregates (COUNT(*), COUNT/MIN/MAX over a,b,a+1,b+1,c, SUM/AVG over a,b,a+1,b+1) + 2 multi-aggregate lists x 6 groupings (none,a,c,a+1,(a,c),(c,a+1)) x 4 WHERE (none, a>1, c='a', a<0) x 4 HAVING (none, agg>1, agg=1, COUNT(*)>1) on tables of <=3 (quick) / <=4 (thorough) rows and the fixed tables (full pass); on the larger tables (deep pass) the same with the constructs of the open findings KF-C16-02..06 left out (counted as pruned).  On every pk table of the full pass: COUNT(*) via the header fast path and via a scan after each of n single-row DELETEs.  Expected rows = refmodel Query::eval of the same Query value that rendered the SQL; compared as bags.  Distinct = distinct (table, SQL text) by construction; non-trivial = table not empty.",
+            "a case is one aggregate query on one table.  Tables: every multiset of <=4 (quick) / <=6 (thorough) rows over (a,c) in {NULL,1,2}x{NULL,'a','b'} with the REAL column b a fixed function of (a,c) (values NULL/0.5/1.5/2.5), as t(a INT,b REAL,c TEXT) and with an INT PRIMARY KEY, incl. the empty and all-NULL tables, plus five fixed 8-row tables.  Queries: SELECT [g,] agg FROM t [WHERE p] [GROUP BY g[,h]] [HAVING agg cmp k]: 23 single aggregates (COUNT(*), COUNT/MIN/MAX over a,b,a+1,b+1,c, SUM/AVG over a,b,a+1,b+1) + 2 multi-aggregate lists x 6 groupings (none,a,c,a+1,(a,c),(c,a+1)) x 4 WHERE (none, a>1, c='a', a<0) x 4 HAVING (none, agg>1, agg=1, COUNT(*)>1) on tables of <=3 (quick) / <=4 (thorough) rows and the fixed tables (full pass); on the larger tables (deep pass) the same with the constructs of the open findings KF-C16-02..06 left out (counted as pruned).  A second table family t(a INT,d INT,c TEXT) (all multisets of <=3 / <=4 rows over (a,d) in {NULL,1,2}^2 + one fixed 10-row table, x2 variants) runs GROUP BY a,d | d,a (fixed table: also a,d,c | c,d,a) x 9 single aggregates + 1 multi list x HAVING {none, COUNT(*)>1}: grouping columns of the same type with overlapping domains.  On every pk table of the full pass: COUNT(*) via the header fast path and via a scan after each of n single-row DELETEs.  Expected rows = refmodel Query::eval of the same Query value that rendered the SQL; compared as bags.  Distinct = distinct (table, SQL text) by construction; non-trivial = table not empty.",
         );
         s.assumptions = &[
             "oracle = refmodel::sql (cross-checked against SQLite): aggregates ignore NULL except COUNT(*); empty or all-NULL input gives COUNT 0 and NULL for SUM/AVG/MIN/MAX; one group per distinct key with NULL keys forming one group; an aggregate query without GROUP BY has exactly one row; HAVING keeps groups whose condition is TRUE",
@@ -711,6 +838,21 @@ impl Check for C16 {
         rep.bound("full_alphabet_max_rows", json!(kfull));
         for c in ["queries", "queries_having", "queries_where", "plan_op_HashAggregate", "count_header_fast_path_shape_COUNT(*)", "count_after_delete_checks"] {
             rep.expect_nonzero(c);
+        }
+        // family "ad" first (cheap): two grouping columns of the same type with overlapping domains
+        let kad = ctx.opt("kad").and_then(|s| s.parse().ok()).unwrap_or(ctx.tier.pick(3usize, 4usize));
+        rep.bound("same_type_keys_family_max_rows", json!(kad));
+        rep.expect_nonzero("queries_same_type_keys_family");
+        let lists_ad = agg_lists_ad();
+        for (ti, spec) in ad_tables(kad).iter().enumerate() {
+            if ctx.mine(ti as u64) {
+                run_table(ctx, rep, spec, ti, &lists_ad, spec.fixed, false);
+                rep.count("tables_same_type_keys_family", 1);
+            }
+            if ctx.expired() {
+                rep.capped("deadline in the same-type-keys family");
+                return;
+            }
         }
         let tables = all_tables(kmax, kfull);
         rep.bound("tables", json!(tables.len()));
